@@ -4,9 +4,12 @@ Implementation side: the real writers/readers (`get_as_xml_string`, `get_as_medi
 `save_as_dataframes`, `from_string`, `load_schema`) and `HedSchema.__eq__`.
 Independent side: our own ElementTree walk of the saved XML text (no hed code) against the vocabulary of the
 schema object and of the source XML file.
-Model side (lean/HedVerif/Model/SchemaIO.lean): attribute-string grammar, wiki entry lines, tag-section
-writer/reader, save decisions of `Schema2Base.process_schema`; compared with what the real writers produce for
-every entry and with `parse_attribute_string` / the wiki line reader on generated (also malformed) inputs.
+Model side (lean/HedVerif/Model/SchemaIO.lean): attribute-string grammar, wiki entry lines, tag-section and
+other-section writers/readers of MediaWiki, the rows of the TSV tag sheet, the XML element forest of the tag
+section, save decisions of `Schema2Base.process_schema`; compared with what the real writers produce for every
+entry (lines as text, TSV rows read back with the csv module, XML read back with ElementTree) and with
+`parse_attribute_string`, the wiki line reader, `SchemaLoaderDF._read_schema` and
+`SchemaLoaderXML._populate_tag_dictionaries` on generated (also malformed) inputs.
 """
 import json
 import os
@@ -987,7 +990,11 @@ def document_fuzz(ctx, impl, sample_rows, n_rows, n_trees):
         m = ("crash" if a == "crash" else "error") if isinstance(a, str) else [{"name": b["name"], "attrs": [list(x) for x in canon_attrs(b["attrs"])], "desc": b["desc"]} for b in a]
         ctx.case(("tsv-rows", json.dumps(s)), nontrivial=isinstance(r, list) and bool(r))
         ctx.count("tsv-fuzz:" + (r if isinstance(r, str) else "ok"))
-        if m != r:
+        if m == "error" and r == "crash":
+            # the loader records an empty name and goes on; a later row may then raise.  The model stops at the
+            # first problem: both are failed loads
+            ctx.count("tsv-fuzz:error-then-later-crash")
+        elif m != r:
             ctx.disagree("ofTsvRows = SchemaLoaderDF._read_schema", {"kind": "tsvrows", "rows": s}, m, r)
     for t, a in zip(trees, ans[len(sheets):]):
         r = impl_read_xml_forest(impl, t)
@@ -1241,7 +1248,13 @@ def run(ctx):
                          "findings; model: every attribute string and wiki line of every written entry, generated and "
                          "mutated attribute strings / lines; non-trivial = a schema actually saved and reloaded, or an "
                          "input the reader accepts")
-    ctx.notes.append("XML text <-> tree (ElementTree) and pandas cell handling run for real on the implementation side; not in the Lean model")
+    ctx.notes.append("XML text <-> tree (ElementTree) and pandas cell quoting run for real on the implementation side; the Lean "
+                     "model starts at the element forest / the row cells (compared via ElementTree / csv readings of the saved files)")
+    ctx.notes.append("not modelled: the TSV sheets other than Tag, the XML sections other than <schema>, the reader's retry "
+                     "rounds for rows whose parent comes later, rooted-tag resolution against the partner schema while reading")
+    ctx.notes.append("observation (malformed input, outside the property): a malformed Attributes cell makes the TSV reader "
+                     "raise AttributeError/TypeError instead of HedFileError (_get_tag_attributes returns None after recording "
+                     "the error); a tag named '#' alone raises IndexError in every reader")
     ctx.notes.append("prologue/epilogue are outside the property's edit class; observed there (not reported): a literal "
                      "backslash-n, a leading double quote (TSV) and a line starting with a section marker (MediaWiki) "
                      "do not round-trip (escape_counterexample states the first on the model)")
@@ -1319,6 +1332,21 @@ def replay(ctx, rec):
             print("model:", json.dumps(a), "\nimpl: ", json.dumps(r))
             if a != r:
                 ctx.disagree("cleanLine/readEntry = wiki line reader", case, a, r)
+        elif kind == "tsvrows":
+            a = ctx.model.batch([{"op": "c05.readtsv", "rows": case["rows"]}])[0]["entries"]
+            r = impl_read_tsv_rows(impl, case["rows"])
+            m = ("crash" if a == "crash" else "error") if isinstance(a, str) else \
+                [{"name": b["name"], "attrs": [list(x) for x in canon_attrs(b["attrs"])], "desc": b["desc"]} for b in a]
+            print("model:", json.dumps(m), "\nimpl: ", json.dumps(r))
+            if a not in ("unresolvedParent", "needsPartner") and m != r and not (m == "error" and r == "crash"):
+                ctx.disagree("ofTsvRows = SchemaLoaderDF._read_schema", case, m, r)
+        elif kind == "xmltree":
+            a = ctx.model.batch([{"op": "c05.readxml", "tree": case["tree"]}])[0]
+            r = impl_read_xml_forest(impl, case["tree"])
+            m = [{"name": b["name"], "attrs": [list(x) for x in canon_attrs(b["attrs"])], "desc": b["desc"]} for b in a["entries"]]
+            print("model:", json.dumps(m), "\nimpl: ", json.dumps(r))
+            if m != r:
+                ctx.disagree("ofXmlTree = SchemaLoaderXML._populate_tag_dictionaries", case, m, r)
         for v in ctx.violations:
             print("violation:", v["clause"], json.dumps(v["case"], default=str)[:300], str(v["detail"])[:300])
     finally:
